@@ -206,6 +206,15 @@ theorem Flat.read_one {M : Nat} {f : Flat} {a : Nat} (h1 : a + 1 ≤ M) (h2 : a 
   rw [if_neg n1, if_pos n2]
   simp [slice]
 
+theorem Flat.verify_cases (M : Nat) (f : Flat) (a c : Nat) :
+    (f.verify M a c = .ok (a, a + c) ∧ f.accessible M a (a + c)) ∨ (∃ e, f.verify M a c = .error e) := by
+  unfold Flat.verify
+  split
+  · exact Or.inr ⟨_, rfl⟩
+  · split
+    · rename_i h; exact Or.inl ⟨rfl, h⟩
+    · exact Or.inr ⟨_, rfl⟩
+
 theorem writeNoOwnerChecks_refines {M : Nat} {m : Mem} {f : Flat} (h : Sim M m f) (a len : Nat) (vals : Nat → UInt8) :
     RefRes M (m.writeNoOwnerChecks M a len vals) (f.write M a len vals) := by
   unfold Mem.writeNoOwnerChecks Flat.write
